@@ -29,7 +29,7 @@ def run(cm, target, rel, old, new, timeout=10000):
                     ob.status, ob.backend, ob.time, ob.model = smt.check(ob.pc, ob.goal, timeout)
                 if ob.status != "unsat":
                     bad.setdefault(ob.oid, ob.status)
-            res[t] = ("failed" if bad else "verified", dict(bad), e.undecided)
+            res[t] = ("failed" if bad else ("undecided" if e.undecided else "verified"), dict(bad) or {str(u): "undecided" for u in e.undecided}, e.undecided)
         return res
     finally:
         shutil.rmtree(d, ignore_errors=True)
